@@ -30,7 +30,7 @@ RULE = (
 )
 ASSUMPTIONS = [
     "realizable architectures (leaf importers); verdict preservation is claimed for pairwise unrelated subject/object identifiers only (for related ones an import inside the subject is legitimately lost by the quotient)",
-    "level_limit >= 1",
+    "level_limit >= 0 for the graph quotient (0 = only the root module remains); verdict preservation for k >= 1",
 ]
 
 
@@ -45,6 +45,7 @@ def plan(tier, seed):
     adv = plan_graph_shards("A", n_max=4 if tier == "quick" else 5, chunk=64)
     shards += [dict(s, naming="adversarial", bound=s["bound"] + " naming=adversarial") for s in adv]
     shards += [dict(s, naming="unicode", bound=s["bound"] + " naming=unicode (non-ASCII identifiers)") for s in adv]
+    shards += [dict(s, naming="hyphen", bound=s["bound"] + " naming=hyphen (characters sorting before the dot)") for s in adv]
     for s in shards:
         s["part"] = "graph"
         s["rules"] = True
@@ -53,7 +54,7 @@ def plan(tier, seed):
     step = 24
     for lo in range(0, n, step):
         shards.append({"part": "skeleton", "lo": lo, "hi": lo + step, "bound": "single-statement skeleton scans with level_limit"})
-    return {"shards": shards, "require_nonzero": ["quotient", "merging", "verdict:PASS", "verdict:FAIL", "scan", "skeleton", "skeleton:edge-survives", "skeleton:parent-relative-spelling"]}
+    return {"shards": shards, "require_nonzero": ["quotient", "merging", "verdict:PASS", "verdict:FAIL", "layer-verdict", "scan", "skeleton", "skeleton:edge-survives", "skeleton:parent-relative-spelling"]}
 
 
 def _count(t):
@@ -104,7 +105,7 @@ def check_graph(ns, I, seed, res, with_rules=True, only=None):
     viol = []
     full = build(ns, I, seed)
     d = depth_of(ns)
-    for k in range(1, d + 1):
+    for k in range(0, d + 1):  # k = 0: everything collapses into the root module
         lim = build(ns, I, seed, level_limit=k)
         got = graph_snapshot(lim)
         exp = model_quotient_snapshot(ns, I, k)
@@ -118,8 +119,29 @@ def check_graph(ns, I, seed, res, with_rules=True, only=None):
         if got != exp:
             viol.append(("limited-graph-is-not-the-quotient", k, None, _snap(exp), _snap(got)))
             continue
-        if not with_rules or k == d:
+        if not with_rules or k == d or k == 0:
             continue
+        # layer rules whose layers list modules at or above the limit: same verdict on both
+        if only is None or (isinstance(only, dict) and "layers" in only):
+            from .c05 import layer_rule_specs, layerings
+            from ..impl import mk_layer_rule, mk_layered_architecture
+
+            for layers in layerings(ns):
+                if any(m.count(".") > k for ms in layers.values() for m in ms):
+                    continue
+                defs = [(name, ("names", list(ms))) for name, ms in layers.items()]
+                for lspec in layer_rule_specs(layers):
+                    if only is not None and (only["layers"] != layers or only["rule"] != lspec):
+                        continue
+                    a = run_rule(mk_layer_rule(mk_layered_architecture(defs, seed), lspec, seed), full)
+                    b = run_rule(mk_layer_rule(mk_layered_architecture(defs, seed), lspec, seed), lim)
+                    if res is not None:
+                        res.transitions += 2
+                        res.evaluations += 1
+                        res.traces += 1
+                        res.stats["layer-verdict"] += 1
+                    if a[0] != b[0]:
+                        viol.append(("layer-rule-verdict-differs-on-limited-architecture", k, {"layers": layers, "rule": lspec}, a[0], b[0] + ": " + b[1][:200]))
         for spec in _specs(ns):
             if not eligible(spec, k):
                 continue
@@ -183,7 +205,7 @@ def scan_cases(res, only=None):
                 for opts in ({}, {"exclude_external_libraries": False}):
                     full = observed(scan(root, mp, **opts))
                     maxdepth = max(m.count(".") for m in full[0]) - offset
-                    for k in range(1, max(1, maxdepth) + 1):
+                    for k in range(0, max(1, maxdepth) + 1):
                         key = [lname, mp_rel, k, sorted(opts)]
                         if only is not None and only != key:
                             continue
@@ -296,7 +318,7 @@ def skeleton_cases(res, lo=0, hi=None, only=None):
                             f.write(spelled + "\n")
                         full = observed(scan(root, mp, **opts))
                         maxdepth = max(m.count(".") for m in full[0]) - offset
-                        for k in range(1, max(1, maxdepth) + 1):
+                        for k in range(0, max(1, maxdepth) + 1):
                             key = [rel, spelled, mp_rel, k, sorted(opts)]
                             if only is not None and only != key:
                                 continue
@@ -380,6 +402,8 @@ def minimise(v):
         r = _check_case(case)
         v = dict(v, case=case, expected=r[1], observed=r[2])
         rs = case.get("rule")
+        if rs and "layers" in rs:
+            rs = rs["rule"]
         v["signature"] = f"{v['kind']}:k{case['level_limit']}:edges{len(case['imports'])}" + (f":{rs['verb']}/{rs['exc']}" if rs else "")
     elif case["part"] == "skeleton":
         v = dict(v)
